@@ -5,6 +5,7 @@ VARS = ["BUILD_DATE", "CATEGORIES", "COMMENT", "CONFLICTS", "DEPENDS", "DESCRIPT
 KA = {3, 4, 5, 19, 20, 22}
 KI = {8, 21}
 REQUIRED = [0, 1, 2, 5, 11, 12, 13, 15, 16, 17, 21]
+LONG = True   # multi-KiB values (switched off by the stream property, whose cost grows with every cut position)
 I64 = [0, 1, -1, 42, 123456789, 9223372036854775807, -9223372036854775808, 1000000, 7]
 
 
@@ -17,7 +18,16 @@ def text(rng, unicode_ok=True):
         pool += "é漢\U0001F600ß€"
     if rng.random() < 0.1:
         pool += "\t=="
-    return "".join(rng.choice(pool) for _ in range(rng.choice([1, 2, 3, 5, 8, 20])))
+    if LONG and r > 0.985:
+        # a value of several KiB full of 2-, 3- and 4-byte characters: some character straddles every 4096-byte boundary
+        return "".join(rng.choice("a\u00e9\u6f22\U0001F600") for _ in range(rng.choice([1500, 3000, 5000])))
+    if rng.random() < 0.08:
+        # legal but unusual characters: NUL, DEL, VT, FF, NEL, LINE SEPARATOR, a combining mark, a BOM inside the value
+        pool += "\x00\x7f\x0b\x0c\u0085\u2028\u0301\ufeff"
+    t = "".join(rng.choice(pool) for _ in range(rng.choice([1, 2, 3, 5, 8, 20])))
+    if rng.random() < 0.06:
+        t += rng.choice(["\x00", "\x00\x00", "\x7f", "\u2028", " ", "\t", "\u0085", "\ufeff"])   # ... also as the LAST character(s)
+    return t
 
 
 def value(rng, v):
